@@ -399,13 +399,15 @@ class ShapeCastable:
         .. code::
 
             def format(self, obj, spec):
-                return Format(f"{{:{spec}}}", Value.cast(obj))
+                return Format("{:{}}", Value.cast(obj), spec)
 
         Returns
         -------
         :class:`Format`
         """
-        return Format(f"{{:{spec}}}", Value.cast(obj))
+        # The specification is passed as a nested field, so that it may include `{` or `}`
+        # (as the fill character).
+        return Format("{:{}}", Value.cast(obj), spec)
 
 
 class _ShapeLikeMeta(type):
